@@ -615,7 +615,7 @@ class C04(Property):
             "30% with a preliminary set(). Every case: set(), observe return/value/u/signal log, and on success re-set the resulting .u on a "
             "fresh element. non-trivial = completed set() of a non-None input (scalar) / at least one child signal (container)")
     quick_n = 40000
-    thorough_n = 200000
+    thorough_n = 400000
 
     # ------------------------------------------------------------ cases
 
